@@ -305,6 +305,7 @@ var c10Decls = []declFrag{
 	// a url token that a quote, a comment mark or a blank turns into a bad-url: for a browser it ends at the first ')'
 	dirty(`background: url(x");position:fixed;top:0;x:")`), dirty(`background: url(x ');position:fixed;x:')`),
 	dirty(`background: url(x /*);position:fixed;x:*/)`), dirty(`background: u\72l(x");position:fixed;x:")`),
+	dirty(`background: /* a */ url(x) /* b */ red`), dirty(`color: /* a */ red`),
 	dirty(`background: url(a.png)`), dirty(`background: url( "a;b" )`), dirty(`background: url(a\)b)`), dirty(`background: url(a b)`), dirty(`background: url(a(b)`),
 	// letters that only Unicode case folding maps onto ASCII ones (U+212A Kelvin sign, U+017F long s)
 	dirty("bac\u212aground: red"), dirty("color: blac\u212a"), dirty("color: \u017folid"), dirty("font-family: blac\u212a"), dirty("font-family: \u017folid"),
